@@ -40,9 +40,14 @@ decasteljau(const std::vector<LieGroup>& trajectory,
   MANIF_CHECK(k_interp > 0,
     "k_interp must be greater than zero!");
 
-  // Number of connected, non-overlapping segments
+  MANIF_CHECK(degree > 1,
+    "Degree must be greater than one!");
+
+  // Number of connected segments of 'degree' control points,
+  // consecutive segments sharing one point:
+  // segment s spans [s*(degree-1), s*(degree-1)+degree-1]
   const unsigned int n_segments = static_cast<unsigned int>(
-      std::floor(double(trajectory.size()-degree)/double((degree-1)+1))
+      (trajectory.size()-1)/(degree-1)
   );
 
   std::vector<std::vector<const LieGroup*>> segments_control_points;
